@@ -314,6 +314,36 @@ def _hypergraph_cases(draw, tier, restricted):
         if tuple(sorted(e)) not in seen:
             seen.add(tuple(sorted(e)))
             edges.append(e)
+    # "staircase" family (one case in six, unrestricted model only): exactly two hyperedges
+    # share a size and all the others have pairwise different sizes, so that the detailed
+    # chain has to redraw its pair many times before it finds a same-size one
+    stair = (not restricted) and draw(st.integers(0, 5)) == 0
+    if stair and draw(st.booleans()):
+        # large variant: 21 hyperedges of sizes 1..20 on 24 nodes (sizes all different except
+        # one pair), where a same-size pair is drawn with probability about 1/20 only
+        n = 24
+        u = {"kind": "range", "labels": list(range(n))}
+        k2 = draw(st.sampled_from([2, 3, 4]))
+        start = draw(st.integers(0, n - 1))
+        edges = [[(start + 5 * j + i) % n for i in range(j)] for j in range(1, 21)]
+        edges.append([(start + 7 + i) % n for i in range(k2)])
+        seen2, uniq = set(), []
+        for e in edges:
+            if tuple(sorted(e)) not in seen2:
+                seen2.add(tuple(sorted(e)))
+                uniq.append(e)
+        edges = uniq
+    elif stair:
+        u = draw(S.universes(min_size=8, max_size=8))
+        n = 8
+        k2 = draw(st.sampled_from([2, 3]))
+        pair = draw(st.lists(st.lists(st.integers(0, n - 1), min_size=k2, max_size=k2, unique=True),
+                             min_size=2, max_size=2, unique_by=lambda e: tuple(sorted(e))))
+        edges = list(pair)
+        for j in (1, 2, 3, 4, 5, 6, 7, 8):
+            if j != k2:
+                edges.append(draw(st.lists(st.integers(0, n - 1), min_size=j, max_size=j,
+                                           unique=True)))
     # listed in a drawn order (the chain indexes the listing)
     edges = permuted(edges, draw(st.integers(0, 999)))
     case = {
@@ -329,6 +359,10 @@ def _hypergraph_cases(draw, tier, restricted):
         "seeds": draw(st.lists(S.seeds, min_size=2 if not big else 3, max_size=3 if not big else 5,
                                unique=True)),
     }
+    if stair:
+        case["detailed"] = draw(st.sampled_from([True, None]))
+        case["n_steps"] = draw(st.sampled_from([200, 100, 200]))
+        case["staircase"] = True
     case["weights"] = (draw(st.lists(S.weights_int, min_size=len(edges), max_size=len(edges)))
                        if case["weighted"] else [])
     if restricted:
